@@ -29,6 +29,10 @@ Select(a, step, off, rs, N) == [j \in 1..rs |-> Limb(a, off + (j - 1) * step, N)
 \* masking of the least significant active limb: bitwise AND with -(2^t)  =  floor to a multiple of 2^t
 MaskPoly(x, t) == [i \in 1..Len(x) |-> (x[i] \div Pow2(t)) * Pow2(t)]
 MaskLast(a, t) == [j \in 1..Len(a) |-> IF j = Len(a) THEN MaskPoly(a[j], t) ELSE a[j]]
+\* a prepared operand of pa limbs holds the first min(pa, size) limbs of its source (zero beyond); the mask
+\* applies to the last limb that was actually taken
+Trunc(a, pa) == SubSeq(a, 1, Min(pa, Len(a)))
+Prep(a, pa, t) == MaskLast(Trunc(a, pa), t)
 
 RECURSIVE SumPolys(_, _, _)
 SumPolys(F(_), lo, hi) == IF lo > hi THEN <<>> ELSE IF lo = hi THEN F(lo) ELSE PAdd(F(lo), SumPolys(F, lo + 1, hi))
@@ -77,13 +81,13 @@ DftPost(op, N, p, rs, ins) ==
          [j \in 1..rs |-> IF j <= Len(ins.b) THEN NegacyclicMul(ins.s, ins.b[j]) ELSE PZero(N)]
     [] op = "svp_apply_dft_to_dft_assign" -> [j \in 1..rs |-> NegacyclicMul(ins.s, ins.r[j])]
     [] op \in {"vmp_apply_dft", "vmp_apply_dft_to_dft"} -> [j \in 1..rs |-> VmpLimb(ins.am, ins.m, p, p.rcol, j - 1, N)]
-    [] op = "cnv_apply_dft" -> Conv(MaskLast(ins.a, p.maskt), MaskLast(ins.b, p.maskt), p.off, rs, N)
-    [] op = "cnv_apply_dft_self" -> Conv(MaskLast(ins.a, p.maskt), MaskLast(ins.a, p.maskt), p.off, rs, N)
+    [] op = "cnv_apply_dft" -> Conv(Prep(ins.a, p.pa, p.maskt), Prep(ins.b, p.pb, p.maskt), p.off, rs, N)
+    [] op = "cnv_apply_dft_self" -> Conv(Prep(ins.a, p.pa, p.maskt), Prep(ins.a, p.pa, p.maskt), p.off, rs, N)
     [] op = "cnv_pairwise_apply_dft" ->
-         LET ai == MaskLast(ins.am[p.ci + 1], p.maskt)
-             aj == MaskLast(ins.am[p.cj + 1], p.maskt)
-             bi == MaskLast(ins.bm[p.ci + 1], p.maskt)
-             bj == MaskLast(ins.bm[p.cj + 1], p.maskt)
+         LET ai == Prep(ins.am[p.ci + 1], p.pa, p.maskt)
+             aj == Prep(ins.am[p.cj + 1], p.pa, p.maskt)
+             bi == Prep(ins.bm[p.ci + 1], p.pb, p.maskt)
+             bj == Prep(ins.bm[p.cj + 1], p.pb, p.maskt)
          IN IF p.ci = p.cj THEN Conv(ai, bi, p.off, rs, N)
             ELSE Conv([j \in 1..Len(ai) |-> PAdd(ai[j], aj[j])], [j \in 1..Len(bi) |-> PAdd(bi[j], bj[j])], p.off, rs, N)
     [] op = "cnv_by_const_apply" -> [j \in 1..rs |-> ConvConstLimb(ins.a, ins.cst, (j - 1) + p.off, N)]
